@@ -288,13 +288,25 @@ IMPLICIT = {
               'type D extending C;'),
 }
 FAMILY.update(IMPLICIT)
+# constraints / indexes whose name is derived from their expressions and
+# arguments, next to alterations of the pointers those expressions read
+_CR = ('constraint max_value(5) on (.{0}); constraint exclusive on (.{0}) '
+       'except (.{0} < 0); index on (.{0});')
+CONREF = {
+    'CR_0': D('type A { n: int64; %s }' % _CR.format('n')),
+    'CR_req': D('type A { required n: int64; %s }' % _CR.format('n')),
+    'CR_ren': D('type A { m: int64; %s }' % _CR.format('m')),
+    'CR_min': D('type A { n: int64 { constraint min_value(0) } }'),
+    'CR_none': D('type A { required n: int64; }'),
+}
+FAMILY.update(CONREF)
 FOCUS_GROUPS = [(list(DEEP), True), (list(FIELDS), False),
                 (list(ALD), True), (list(REBASE), True),
-                (list(IMPLICIT), True)]
+                (list(IMPLICIT), True), (list(CONREF), True)]
 # groups whose every 3-chain is walked by C10 (state reached by migration
 # matters); the alias-default group is represented by its base <-> variant
 # chains only (one known root cause, see KNOWN_FINDINGS.json)
-CHAIN3_GROUPS = [list(REBASE), list(IMPLICIT)]
+CHAIN3_GROUPS = [list(REBASE), list(IMPLICIT), list(CONREF)]
 
 # members whose second module shadows std names used (unqualified in the
 # source) by the first one: the described text must stay self-contained
